@@ -8,6 +8,7 @@ mod blocks;
 mod coverage;
 mod front;
 mod graph;
+mod host;
 mod lexer;
 mod numeric;
 mod roles;
@@ -63,6 +64,9 @@ fn main() {
         | "pending-slot" => conc::pending_slot(&args[2]),
         | "replay-numeric" => numeric::replay_numeric(&args[2], &args[3]),
         | "literal-discipline" => numeric::literal_discipline(&args[2]),
+        | "replay-host" => host::replay_host(&args[2], &args[3]),
+        | "classifier-mutants" => host::classifier_mutants(&args[2], args[3].parse().unwrap()),
+        | "role-table" => host::role_table(&args[2]),
         | "corpus-run" => {
             // zyconf corpus-run OUT MUTANTS_PER_FILE MAX_STEPS
             corpus::corpus_run(&args[2], args[3].parse().unwrap(), args[4].parse().unwrap());
